@@ -999,6 +999,11 @@ func (r *Reader) parseBodyElementsInOrder(data []byte) error {
 				continue
 			}
 
+			// Content controls and custom XML blocks only group body elements
+			if depth == 0 && isBodyContainer(t.Name.Local) {
+				continue
+			}
+
 			// Only direct children of the body are body elements; paragraphs
 			// nested in table cells or text boxes belong to their container
 			depth++
@@ -1028,7 +1033,9 @@ func (r *Reader) parseBodyElementsInOrder(data []byte) error {
 		case xml.EndElement:
 			if inBody {
 				if depth == 0 {
-					inBody = false
+					if !isBodyContainer(t.Name.Local) {
+						inBody = false
+					}
 				} else {
 					depth--
 				}
